@@ -1069,6 +1069,15 @@ func (v *Visitor) EnterOperationDefinition(opRef int) {
 
 func (v *Visitor) EnterDocument(operation, definition *ast.Document) {
 	v.Operation, v.Definition = operation, definition
+	// keyed by refs of the operation being planned: must not survive into the next Plan call.
+	// clear() keeps map identity (the cost visitor holds on to fieldPlanners).
+	clear(v.fieldConfigs)
+	clear(v.exportedVariables)
+	clear(v.indirectInterfaceFields)
+	clear(v.pathCache)
+	clear(v.plannerFields)
+	clear(v.fieldPlanners)
+	clear(v.fieldEnclosingTypeNames)
 }
 
 func (v *Visitor) LeaveDocument(_, _ *ast.Document) {
